@@ -247,6 +247,34 @@ def runReorder (sid : Nat → Nat) (s : St) : List ActR → Option St
     | some s' => runReorder sid s' as
     | none => none
 
+/-! ### `ready()` reading the result with `try_lock`
+
+In the code the early result check WAITS for the result mutex (`lock().await`): the `check` action always looks at
+the result, it can not be skipped. `stepTryLock` adds what `try_lock` allows: while another waiter holds the
+mutex the check is skipped (`checkSkip`: registered → "checked, nothing there") without looking at the result. -/
+
+inductive ActT
+  | base (a : Act)
+  | checkSkip (t : Nat)
+deriving DecidableEq, Repr
+
+def stepTryLock (sid : Nat → Nat) (s : St) : ActT → Option St
+  | .base a => stepFn .fixed sid s a
+  | .checkSkip t =>
+    match s.pc t with
+    | .reg x n => some { s with pc := upd s.pc t (.chk x n) }
+    | _ => none
+
+inductive ReachT (sid : Nat → Nat) : St → Prop
+  | init : ReachT sid init
+  | step {s s'} (a : ActT) : ReachT sid s → stepTryLock sid s a = some s' → ReachT sid s'
+
+def runTryLock (sid : Nat → Nat) (s : St) : List ActT → Option St
+  | [] => some s
+  | a :: as => match stepTryLock sid s a with
+    | some s' => runTryLock sid s' as
+    | none => none
+
 def Step (v : Variant) (sid : Nat → Nat) (s s' : St) : Prop := ∃ a, stepFn v sid s a = some s'
 
 inductive Reach (v : Variant) (sid : Nat → Nat) : St → Prop
